@@ -1,8 +1,10 @@
 #!/bin/bash
 # tools/eval_batch.sh <outdir> <suffix> <id>...  : confirm and evaluate the changes a sub-agent left in
-# <outdir>/<id>/{patch,demo,meta}{1,2}.*  as seeded/<id><suffix>-<k>   (3 at a time)
+# <outdir>/<id>/{patch,demo,meta}{1,2}.*  as seeded/<id><suffix>-<k>   (PAR at a time, default 3).
+# TARGET_ONLY=1 runs only the check of the property the change was written against.
 cd "$(dirname "$0")/.."
 OUT=$1; SUF=$2; shift 2
 mkdir -p .cache/mutlogs
+export OUT SUF TARGET_ONLY
 for id in "$@"; do for k in 1 2 3; do [ -f $OUT/$id/patch$k.diff ] && echo "$id $k"; done; done |
-  xargs -P 3 -L 1 bash -c 'python3 tools/try_mutant.py '$OUT'/$0 $1 $0'$SUF'-$1 > .cache/mutlogs/$0'$SUF'-$1.log 2>&1; tail -1 .cache/mutlogs/$0'$SUF'-$1.log'
+  xargs -P ${PAR:-3} -L 1 bash -c 'P=""; [ -n "$TARGET_ONLY" ] && P="--props $0"; python3 tools/try_mutant.py $OUT/$0 $1 $0$SUF-$1 $P > .cache/mutlogs/$0$SUF-$1.log 2>&1; tail -1 .cache/mutlogs/$0$SUF-$1.log'
